@@ -35,7 +35,7 @@ def classify(r):
     return None
 
 def build(tier):
-    return {"lib": build_lib("framed"), "case_timeout": 600}
+    return {"lib": build_lib("framedpeek", wrappers=["framed_peek.c"]), "case_timeout": 600}
 
 def gen_cases(tier, seed):
     rng = random.Random(seed)
@@ -135,6 +135,7 @@ def one_session(st, acc, rng, data, p, bs=65536, hlen=7, dict_=None, multi=False
             pass
         s.free()
     acc.stats["sessions"] += 1
+    for k, v in s.stages.items(): acc.stats["rest_" + k] += v
     acc.stats["calls"] += s.calls
     acc.stats["verdict_" + r["verdict"] + ("_%s" % F.ERR.get(r.get("code"), r.get("code")) if r["verdict"] == "error" else "")] += 1
     acc.stats["chunking_" + p["chunking"]] += 1
